@@ -57,6 +57,7 @@ def run(tier="quick", only_key=None):
     ck.rule("forced-stepper", "ForcedStepper: step(u, f) = stepper.step(u + dt f) with the wrapped stepper's dt, same in Fourier space, __call__ delegates; zero forcing = unforced step")
     for parity in (0, 1):
         it = new_interp(ck.repo, parity=parity, stub_etdrk=True)
+        it.ctx.region_strict = True  # value-range dependent construction contradicts the documented formula
         nfm = it.module("exponax.nonlin_fun").env
         try:
             V2, V2K = nfm.get("VorticityConvection2d"), nfm.get("VorticityConvection2dKolmogorov")
